@@ -121,9 +121,7 @@ class BuiltinsBase:
                 return F(z3.fpRem(x, y))
             raise Unsupported("float op %s" % op)
         if isinstance(a, S) and op == "Add":
-            if a.conc() and b.conc():
-                return S(a.v + b.v)
-            return S(z3.Concat(a.z(), b.z()))
+            return self.concat([a, b])
         if isinstance(a, bool) or (is_sym(a) and z3.is_bool(a)):
             if op == "BitAnd":
                 return band(a, b)
